@@ -60,6 +60,9 @@ pub enum Tamper {
     HashEmptyLen,
     /// correctly signed, timestamp at the future bound (clock decides)
     Future { delta: i64 },
+    /// honestly signed, but with a timestamp far beyond the bound (the victim's timestamp is set
+    /// to a year ahead, 2^63 µs ahead, u64::MAX - 1 or u64::MAX)
+    FarFuture,
     /// identifier shorter than namespace + author
     ShortId { len: u8 },
     /// one signature copied over the other (both slots then hold the same bytes)
@@ -85,6 +88,7 @@ impl Tamper {
             Tamper::LenZeroHash => "len-zero-hash".into(),
             Tamper::HashEmptyLen => "hash-empty-len".into(),
             Tamper::Future { .. } => "future".into(),
+            Tamper::FarFuture => "far-future".into(),
             Tamper::ShortId { .. } => "short-id".into(),
             Tamper::CopySig { .. } => "copy-sig".into(),
             Tamper::ForgeAuthor { .. } => "forge-author".into(),
@@ -152,7 +156,7 @@ pub fn forge(victim: &Ent, donor: &Ent, t: &Tamper) -> Option<SignedEntry> {
     let honest = victim.signed();
     let mut m = MSigned::from_real(&honest);
     match t {
-        Tamper::None | Tamper::Future { .. } => return Some(honest),
+        Tamper::None | Tamper::Future { .. } | Tamper::FarFuture => return Some(honest),
         Tamper::Flip { field, bit } => match field {
             Field::Key => {
                 let mut id = m.entry.id.to_vec();
@@ -291,8 +295,11 @@ impl Scenario for Forge {
             16 | 17 => Tamper::Future { delta: *rng.pick(&[-1i64, 0, 1, -1000, 1000, -1, 0]) },
             18 if rng.chance(1, 3) => Tamper::OtherDocument,
             18 => if rng.chance(1, 2) { Tamper::CopySig { namespace_over_author: rng.chance(1, 2) } } else { Tamper::ForgeAuthor { zeros: rng.chance(1, 3) } },
-            _ => if rng.chance(1, 3) { Tamper::ShortId { len: rng.below(64) as u8 } } else { Tamper::Future { delta: *rng.pick(&[-1i64, 0, 1]) } },
+            _ => if rng.chance(1, 3) { Tamper::ShortId { len: rng.below(64) as u8 } } else if rng.chance(1, 3) { Tamper::FarFuture } else { Tamper::Future { delta: *rng.pick(&[-1i64, 0, 1]) } },
         };
+        if matches!(tamper, Tamper::FarFuture) {
+            victim.ts = *rng.pick(&[BASE + 366 * 86_400 * 1_000_000, BASE + (1u64 << 63), BASE + (1u64 << 63) + 7, u64::MAX - 1, u64::MAX, u64::MAX / 2 + 1]);
+        }
         if matches!(tamper, Tamper::Future { .. }) {
             victim.ts = BASE + 5000;
         }
@@ -396,7 +403,7 @@ async fn run(plan: &ForgePlan, cx: &mut Cx) -> Res {
             Tamper::SwapSigs | Tamper::TransplantSig { .. } | Tamper::ForeignAuthorSig | Tamper::ForeignNamespaceSig | Tamper::CopySig { .. } | Tamper::ForgeAuthor { .. } => "corrupt_signature",
             Tamper::ForeignNamespace | Tamper::NonCurve { .. } | Tamper::ShortId { .. } | Tamper::OtherDocument => "corrupt_identifier",
             Tamper::LenZeroHash | Tamper::HashEmptyLen => "corrupt_empty_mismatch",
-            Tamper::Future { .. } => "clock_skew_future_bound",
+            Tamper::Future { .. } | Tamper::FarFuture => "clock_skew_future_bound",
             Tamper::None => "none",
         });
     } else if matches!(plan.tamper, Tamper::Future { .. }) {
